@@ -1,10 +1,13 @@
 #!/bin/sh
-# usage: tools/recheck_seeds.sh [pattern]
+# usage: tools/recheck_seeds.sh [--update] [pattern]
 # Re-runs all quick checks against every stored seeded change (scratch copy of /repo per seed, removed
 # afterwards) and reports which fire; a seed recorded as caught in its meta.json that no longer fires is
-# reported as REGRESSION (exit 1).
+# reported as REGRESSION (exit 1). With --update the meta.json files and seeded/RESULTS.md are rewritten
+# from this run.
 set -u
 cd /verif
+UPDATE=0
+if [ "${1:-}" = "--update" ]; then UPDATE=1; shift; fi
 PAT=${1:-}
 bad=0
 for d in seeded/C*/; do
@@ -18,5 +21,32 @@ for d in seeded/C*/; do
   if [ "$was" = yes ] && [ -z "$fired" ]; then v=REGRESSION; bad=1; fi
   if [ "$was" = no ] && [ -n "$fired" ]; then v=NEWLY-CAUGHT; fi
   echo "$b: $v [$fired] [$rules]"
+  if [ $UPDATE = 1 ]; then
+    FIRED="$fired" RULES="$rules" python3 - "$d/meta.json" <<'PY'
+import json,os,sys
+p=sys.argv[1]
+m=json.load(open(p))
+m['checks_fired']=os.environ['FIRED'].split()
+m['rules_fired']=os.environ['RULES'].split()
+m['caught']=bool(m['checks_fired'])
+m.pop('obligations_fired',None)
+json.dump(m,open(p,'w'),indent=1)
+PY
+  fi
 done
+if [ $UPDATE = 1 ]; then
+python3 - <<'PY'
+import json,glob,os
+rows=[]
+for d in sorted(glob.glob('/verif/seeded/C*/')):
+    m=json.load(open(d+'meta.json'))
+    rows.append((os.path.basename(d.rstrip('/')),' '.join(m['checks_fired']) or '—',' '.join(m['rules_fired']) or '—',(m.get('summary') or '')[:160].replace('|','/').replace('\n',' ')))
+with open('/verif/seeded/RESULTS.md','w') as f:
+    f.write('# Seeded changes: which quick checks fire\n\nEvery row: the change compiles, the full suite stays at baseline, the demonstration passes without and fails with it (re-confirmed in a scratch copy).\n\n| seed | properties whose check fires | rules | change |\n|---|---|---|---|\n')
+    for r in rows: f.write(f'| {r[0]} | {r[1]} | {r[2]} | {r[3]} |\n')
+    c=sum(1 for r in rows if r[1]!='—')
+    f.write(f'\n{c} of {len(rows)} confirmed changes are caught.\n')
+print(open('/verif/seeded/RESULTS.md').read()[-60:])
+PY
+fi
 exit $bad
